@@ -1,5 +1,6 @@
 import FGVerif.Driver.Shared
 import FGVerif.Model.C14
+import FGVerif.Model.C14Choice
 import FGVerif.Generated.C14
 /-! driver operations for C14 (and helpers shared with the C15 driver) -/
 namespace C14
@@ -103,6 +104,41 @@ def specBuild (cfg : Config) (core : Graph) (out : List Canon) : Bool :=
 
 def canonOfGraph (g : Graph) : Canon := { nodes := g.nodes, edges := canonEdges g }
 
+/-! ### the `enumeration_exact` clause: the enumeration AS A MULTISET OF CANONICAL GRAPHS is the declarative one
+    (`allChoices … |>.map expand`, `Model/C14Choice.lean`; theorem `C14.enumeration_exact` / `enumeration_total`) -/
+
+/-- rendering of a canonical graph (same text as `canonGraph` of a model graph) -/
+def renderCanon (c : Canon) : String :=
+  toString (SExp.list [ofList ofNode c.nodes, ofList (ofList ofInt) c.edges])
+
+def sortStrings (l : List String) : List String := l.mergeSort fun a b => decide (a ≤ b)
+
+/-- the clause is evaluated for enumerations of at most this many results -/
+def enumLimit : Nat := 400
+
+/-- expected `build_graphs` enumeration, declaratively: one canonical graph per choice combination -/
+def enumExpected (cfg : Config) (core : Graph) : List String :=
+  if numExp cfg core == 0 then []
+  else (allChoices cfg core).map fun cs => renderCanon (canonOfGraph (expand cfg core cs))
+
+/-- `some b`: the clause was evaluated with result `b`; `none`: too many results -/
+def enumBuild (cfg : Config) (core : Graph) (out : List Canon) : Option Bool :=
+  if numExp cfg core ≤ enumLimit then
+    some (sortStrings (out.map renderCanon) == sortStrings (enumExpected cfg core))
+  else none
+
+/-- the same at the `iter(Proxy)` level: for every core every combination, finished -/
+def enumIter (cfg : Config) (aam : Bool) (cores : List Graph) (out : List Canon) : Option Bool :=
+  if totalExp cfg cores ≤ enumLimit then
+    some (sortStrings (out.map renderCanon) == sortStrings (cores.flatMap fun c =>
+      if numExp cfg c == 0 then []
+      else (allChoices cfg c).map fun cs => renderCanon (canonOfGraph (finish aam (expand cfg c cs)))))
+  else none
+
+def ofOptBool : Option Bool → SExp
+  | some b => ofBool b
+  | none => none'
+
 /-- remove one occurrence of `x` (compared by rendering); `none` = not there -/
 def takeOut (x : List String × List (List Int)) :
     List (List String × List (List Int)) → Option (List (List String × List (List Int)))
@@ -159,22 +195,30 @@ def handle : List SExp → Option SExp
       let model := match res with
         | .ok gs => .list (sortByRender (gs.map canonGraph))
         | .error e => ofErr e
+      -- the `enumeration_exact` clause on the model's own results (what the theorem says of them)
+      let enumModel := match res with
+        | .ok gs => enumBuild cfg core (gs.map canonOfGraph)
+        | .error _ => none
       let specModel := match res with
-        | .ok gs => specBuild cfg core (gs.map canonOfGraph) &&
+        | .ok gs => specBuild cfg core (gs.map canonOfGraph) && enumModel.getD true &&
             (match buildGraphsT cfg fuelMax core with
              | .ok ts => ts.all conservedB && ts.map (·.1.nodes) == gs.map (·.nodes)
              | .error _ => false)
         | .error _ => true
-      let specImpl ← match rest with
+      -- `enumImpl`: the `enumeration_exact` clause on the implementation's list (`_` = not evaluated)
+      let (specImpl, enumImpl) ← match rest with
         | [.list [.atom "raised", .atom k]] => pure (ofBool (match res with
             | .error e => toString (ofErr e) == toString (SExp.list [.atom "raised", .atom k])
-            | .ok _ => false))
+            | .ok _ => false), none')
         | [impl] => do
             let out ← asList asCanon impl
-            pure (ofBool (match res with | .ok _ => specBuild cfg core out | .error _ => false))
-        | _ => pure none'
+            let en := match res with | .ok _ => enumBuild cfg core out | .error _ => none
+            pure (ofBool (match res with | .ok _ => specBuild cfg core out && en.getD true | .error _ => false),
+                  ofOptBool en)
+        | _ => pure (none', none')
       pure (.list [.atom "ok", model, ofBool specModel, specImpl, ofNat (numExp cfg core),
-                   ofBool (acyclicB (toRef cfg)), ofBool (cfgOk cfg), ofBool (hypothesesOk cfg core)])
+                   ofBool (acyclicB (toRef cfg)), ofBool (cfgOk cfg), ofBool (hypothesesOk cfg core),
+                   enumImpl, ofOptBool enumModel])
   -- iter(Proxy): sorted canonical finished graphs
   | .atom "generate" :: cfg :: cores :: aam :: rest => do
       let cfg ← asConfig cfg
@@ -192,31 +236,34 @@ def handle : List SExp → Option SExp
       -- `relaxedImpl`: the same with bond conservation only under the side condition `sideOk` (what the theorems
       -- prove of the model); the harness classifies `specImpl = 0 ∧ relaxedImpl = 1 ∧ nSideFail > 0 ∧
       -- implementation == model` as known finding K7 and everything else with `specImpl = 0` as a violation
-      let (specImpl, relaxedImpl) ← match rest with
+      let (specImpl, relaxedImpl, enumImpl) ← match rest with
         | [.list [.atom "raised", .atom k]] =>
             let b := ofBool (match res with
               | .error e => toString (ofErr e) == toString (SExp.list [.atom "raised", .atom k])
               | .ok _ => false)
-            pure (b, b)
+            pure (b, b, none')
         | [impl] => do
             let out ← asList asCanon impl
             pure (match res, resT with
               | .ok _, .ok rs =>
-                  let base := out.length == totalExp cfg cores && out.all okOne
-                  (ofBool (base && specIter rs out && specIterAll rs out), ofBool (base && specIter rs out))
-              | _, _ => (ofBool false, ofBool false))
-        | _ => pure (none', none')
+                  -- `enumeration_exact` clause at the iter level (`C14.enumeration_total`): the samples are, as a
+                  -- multiset of canonical graphs, the finished expansions of all combinations of all cores
+                  let en := enumIter cfg aam cores out
+                  let base := out.length == totalExp cfg cores && out.all okOne && en.getD true
+                  (ofBool (base && specIter rs out && specIterAll rs out), ofBool (base && specIter rs out), ofOptBool en)
+              | _, _ => (ofBool false, ofBool false, none'))
+        | _ => pure (none', none', none')
       -- the traced enumeration: projection = plain enumeration; every sample conserved (symbols always, bonds
       -- under the side condition); the model's own samples pass the check applied to the implementation's
       let specModel := match res, resT with
         | .ok gs, .ok rs => rs.map (·.2.1.nodes) == gs.map (·.nodes) && rs.all conservedIterB &&
-            specIter rs (gs.map canonOfGraph)
+            specIter rs (gs.map canonOfGraph) && (enumIter cfg aam cores (gs.map canonOfGraph)).getD true
         | .error _, .error _ => true
         | _, _ => false
       let nRes := match resT with | .ok rs => rs.length | .error _ => 0
       let nSideFail := match resT with | .ok rs => (rs.filter fun r => !sideOk r.1).length | .error _ => 0
       pure (.list [.atom "ok", model, ofBool specModel, specImpl, ofNat (totalExp cfg cores),
-                   ofNat nRes, ofNat nSideFail, relaxedImpl])
+                   ofNat nRes, ofNat nSideFail, relaxedImpl, enumImpl])
   -- the generated table of a shipped collection against the configuration the harness extracted
   | .atom "table" :: .atom which :: cfg :: cores :: _ => do
       let cfg ← asConfig cfg
